@@ -112,6 +112,8 @@ def run(ctx):
     import c18
     c18.rule_tailcall(ctx, F)     # multi-token data: the converter is finished once, after the last token
     c18.rule_eofguard(ctx, F)     # ... and a converter past its end-of-data marker takes no further symbol
+    rule_linestart(ctx, F)
+    rule_stepback(ctx, F)
 
 
 def _one(F, rx):
@@ -1122,3 +1124,81 @@ def rule_nocopy(ctx, F):
                "convert_label compares the write cursor with the buffer's read position with `%s`: only equality says that "
                "nothing has been moved yet; otherwise labels behind an escaped one are measured but not copied and the name "
                "comes out with stale octets (`m\\\\097il.example.com.` reads as `mail.il\\\\.exam...`)" % op, b.where(bi))
+
+
+def rule_linestart(ctx, F):
+    """Positions in errors are `start + 1 - line_start`, with `line_start` the index *behind* the last line feed.  Where a
+    SourceBuf method records a new line (`self.line_start = self.start as isize`), it has already moved `start` over
+    the line feed it just read: between the read of the current octet / symbol at `self.start` and the store to
+    `line_start` lies a store to `self.start`.  (Recording first puts the line feed itself in column 1 and every
+    later column of that line is one too large.)"""
+    R = "C07.linestart"
+    ctx.floor(R, 2)
+    n = 0
+
+    def is_field(pl, name):
+        return isinstance(pl, list) and len(pl) == 3 and pl[0] == 1 and pl[1] == "*" and isinstance(pl[2], list) and pl[2][0] == "." and pl[2][2] == name
+
+    for p, b in sorted(F.bodies.items()):
+        if "::test" in p or not re.match(r"^zonefile::inplace::SourceBuf::\w+$", p):
+            continue
+        starts = []
+        lines = []
+        for bi in b.reachable_blocks():
+            for si, st in enumerate(b.blocks[bi]["s"]):
+                if st[0] != "=":
+                    continue
+                if is_field(st[1], "start"):
+                    starts.append((bi, si))
+                if is_field(st[1], "line_start") and st[2][0] == "cast":
+                    lines.append((bi, si))
+        if not lines:
+            continue
+        reads = [bb for bb, t in b.calls() if re.search(r"Symbol::from_slice_index$|slice::<impl \[T\]>::get$", t["fn"] or "")
+                 and any(s[0] == "field" and s[2] == "start" for a in t["args"] for s in walk(deep_strip(b.term_of_operand(a))))]
+        for lb, ls in lines:
+            n += 1
+            ok = False
+            for sb, ss in starts:
+                after_read = any(b.dominates(rb, sb) for rb in reads)
+                before_line = (sb == lb and ss < ls) or (sb != lb and b.dominates(sb, lb))
+                if after_read and before_line:
+                    ok = True
+            ctx.ob(R, b, "a new line is recorded after `start` has moved over the line feed", ok,
+                   "%s stores `line_start = start` without having advanced `start` past the line feed it read: the line feed "
+                   "counts as column 1 of the new line and the position in every later error on that line is one column too large"
+                   % p.split("::")[-1], b.where(lb))
+    ctx.call_sites += n
+
+
+def rule_stepback(ctx, F):
+    """scan_string converts escapes in place and moves its write cursor one back to drop the closing quote -- which is
+    only behind the cursor when the quoted token *has ended* in the run over unescaped symbols (`cat == None`).  If the
+    run stopped at an escape instead, the octet before the cursor is content.  The decrement is dominated by both
+    facts: the token was quoted, and the token has ended."""
+    R = "C07.stepback"
+    ctx.floor(R, 1)
+    b = F.one_body(r"^<zonefile::inplace::EntryScanner<'_> as base::scan::Scanner>::scan_string$")
+    if not ctx.anchor(R, "EntryScanner::scan_string", b):
+        return
+    n = 0
+    for bi in sorted(b.reachable_blocks()):
+        for st in b.blocks[bi]["s"]:
+            if not (st[0] == "=" and st[2][0] in ("bin", "checked") and str(st[2][1]).startswith("Sub")):
+                continue
+            k = const_value(deep_strip(b.term_of_operand(st[2][3])))
+            if k != 1:
+                continue
+            n += 1
+            quoted = ended = False
+            for s, o in outcome_facts(b, bi, F):
+                sh = show(deep_strip(s))
+                if o is True and "PartialEq" in sh and ".cat" in sh:
+                    quoted = quoted or "ItemCat:Quoted" in sh
+                    ended = ended or "ItemCat:None" in sh
+            ctx.ob(R, b, "the write cursor steps back over the closing quote only when the quoted token has ended", quoted and ended,
+                   "scan_string moves its write cursor back by one %s: when the leading run of plain symbols stops at an escape, the "
+                   "octet before the cursor is the last plain character, and it is overwritten (\"ab\\\\.c\" reads as a.c)"
+                   % ("without knowing that the token has ended (cat == None)" if quoted else "on a path where the token is not known to be quoted"),
+                   b.where(bi))
+    ctx.anchor(R, "the decrement of the write cursor in scan_string", n >= 1, b.where())
